@@ -190,6 +190,7 @@ class Producer:
 
 
 def mk_headers(hv, hosts=1):
+    K.fresh_name_cache()
     h = Headers()
     for i in range(hosts):
         h.addRawHeader(b("host"), b("example.com"))
